@@ -528,6 +528,67 @@ func (k *sysCase) sysExpect(f eff) string {
 	return strings.Join(bad, ",")
 }
 
+// sshGCheck runs `ssh -G argv…` (prints the effective client configuration, connects nowhere) and
+// compares it with sshParse's reading f. ran=false when ssh rejects the command line.
+func sshGCheck(e *c14env, argv []string, f eff) (string, bool) {
+	cmd := exec.Command(e.haveSSH, append([]string{"-G"}, argv...)...)
+	cmd.Stdin = nil
+	done := make(chan struct{})
+	var out []byte
+	var err error
+	go func() { out, err = cmd.Output(); close(done) }()
+	select {
+	case <-done:
+	case <-time.After(10 * time.Second):
+		if cmd.Process != nil {
+			cmd.Process.Kill()
+		}
+		<-done
+		return "", false
+	}
+	if err != nil {
+		if ee, ok := err.(*exec.ExitError); ok && c14Debug {
+			fmt.Fprintf(os.Stderr, "ssh -G rejected %q: %s\n", argv, strings.TrimSpace(string(ee.Stderr)))
+		}
+		return "", false
+	}
+	got := map[string]string{}
+	for _, l := range strings.Split(string(out), "\n") {
+		if i := strings.IndexByte(l, ' '); i > 0 {
+			if _, dup := got[l[:i]]; !dup {
+				got[l[:i]] = l[i+1:]
+			}
+		}
+	}
+	val := func(s string) (string, bool) {
+		if !strings.HasPrefix(s, "some:") {
+			return "", false
+		}
+		b, err := vlib.UnHex(s[5:])
+		return string(b), err == nil
+	}
+	var bad []string
+	if v, ok := val(f.host); ok && !strings.EqualFold(got["hostname"], v) {
+		bad = append(bad, fmt.Sprintf("hostname %q vs %q", got["hostname"], v))
+	}
+	if v, ok := val(f.port); ok && got["port"] != v {
+		bad = append(bad, fmt.Sprintf("port %q vs %q", got["port"], v))
+	}
+	if v, ok := val(f.user); ok && got["user"] != v {
+		bad = append(bad, fmt.Sprintf("user %q vs %q", got["user"], v))
+	}
+	if v, ok := val(f.strict); ok && (v == "yes" || v == "no") {
+		want := map[string]string{"yes": "true", "no": "false"}[v]
+		if got["stricthostkeychecking"] != want {
+			bad = append(bad, fmt.Sprintf("stricthostkeychecking %q vs %q", got["stricthostkeychecking"], v))
+		}
+	}
+	if v, ok := val(f.kh); ok && got["userknownhostsfile"] != v {
+		bad = append(bad, fmt.Sprintf("userknownhostsfile %q vs %q", got["userknownhostsfile"], v))
+	}
+	return strings.Join(bad, "; "), true
+}
+
 func isOptionByte(b byte) bool {
 	return (b >= '0' && b <= '9') || (b >= 'A' && b <= 'Z') || (b >= 'a' && b <= 'z') || b == '-' || b == '=' || b == '/'
 }
@@ -629,6 +690,18 @@ func c14Sys(c *ctx, e *c14env, seeds []uint64) {
 			if bad := k.sysExpect(f); bad != "" {
 				res.Fail("oracle", line, fmt.Sprintf("ssh would not do what is configured (%s): argv %q means %s; configured host=%q port=%d user=%q strict=%v kh=%q cfg=%q key=%q",
 					bad, o.argv, meaning[i], k.host, k.port, k.user, k.strict, k.kh, k.cfg, k.key), "c14-argv-meaning-"+bad)
+			}
+			// our reading of the ssh command line (sshParse, trusted) against the real binary: `ssh -G argv…`
+			// prints the configuration ssh would use; where it accepts the command line both must agree
+			if e.haveSSH != "" {
+				if diff, ran := sshGCheck(e, o.argv, f); ran {
+					res.Count("sys-sshG-compared")
+					if diff != "" {
+						res.Fail("machinery", line, fmt.Sprintf("sshParse disagrees with `ssh -G` on %q: %s", o.argv, diff), "c14-sshparse-vs-openssh")
+					}
+				} else {
+					res.Count("sys-sshG-rejected-by-ssh")
+				}
 			}
 			// the model's own argv must satisfy the same demand (theorems argv_effective / argv_identity)
 			if idx := strings.Index(m, " | "); idx >= 0 {
